@@ -81,7 +81,10 @@ class Gridder(LinearOperator):
         nxdirty, nydirty = self._target[0].shape
         dstx, dsty = self._target[0].distances
         if mode == self.TIMES:
-            res = ms2dirty(self._uvw, freq, x.asnumpy().reshape((-1,1)), None, nxdirty,
+            vis = x.asnumpy().reshape((-1,1))
+            if not np.iscomplexobj(vis):  # real-valued data are admissible
+                vis = vis.astype(np.result_type(vis.dtype, np.complex64))
+            res = ms2dirty(self._uvw, freq, vis, None, nxdirty,
                            nydirty, dstx, dsty, 0, 0,
                            self._eps, False, nthreads(), 0)
         else:
@@ -131,8 +134,11 @@ class Nufft(LinearOperator):
 
         self._check_input(x, mode)
         if mode == self.TIMES:
-            res = np.empty(self.target.shape, dtype=x.dtype)
-            nu2u(points=x.asnumpy(), out=res, forward=False, **self._args)
+            pts = x.asnumpy()
+            if not np.iscomplexobj(pts):  # real-valued data are admissible
+                pts = pts.astype(np.result_type(pts.dtype, np.complex64))
+            res = np.empty(self.target.shape, dtype=pts.dtype)
+            nu2u(points=pts, out=res, forward=False, **self._args)
             res = res.real
         else:
             res = u2nu(grid=x.asnumpy().astype('complex128'), forward=True, **self._args)
@@ -398,6 +404,8 @@ class _NufftPlans:
 
     def execute(self, data, nufft_type, forward):
         assert isinstance(data, AnyArray)
+        if data.dtype.kind != "c":  # real-valued grids/points are admissible
+            data = data.astype(np.result_type(data.dtype, np.complex64))
         device_id = data.device_id
 
         if device_id == -1:
